@@ -250,6 +250,8 @@ def _run(ctx, rng, classes, d1, d2, LiftingSchemeError):
             return "err:IndexError"
 
     def fail_capped(sig, case, what):
+        """every signature is reported at most KNOWN_CAP times (the framework keeps 500 failures in total; a flood of
+        one signature must not hide another one), the rest is counted"""
         known_seen[sig] = known_seen.get(sig, 0) + 1
         if known_seen[sig] <= KNOWN_CAP:
             ctx.fail(sig, case, what)
@@ -260,18 +262,18 @@ def _run(ctx, rng, classes, d1, d2, LiftingSchemeError):
         """the selected unit must have a strictly negative derivative"""
         case = dict(t.case(), scheme=sch, active=a, u=u.hex(), u2=u2.hex(), result=res)
         if not res.startswith("id:"):
-            ctx.fail(f"{sch}:exception:{res[4:]}", case, f"valid table, active unit recorded, but the scheme raised {res}")
+            fail_capped(f"{sch}:exception:{res[4:]}", case, f"valid table, active unit recorded, but the scheme raised {res}")
             return
         ident = int(res[3:])
         if ident not in t.ids:
-            ctx.fail(f"{sch}:unknown-identifier-returned", case, "returned identifier is not in the table")
+            fail_capped(f"{sch}:unknown-identifier-returned", case, "returned identifier is not in the table")
             return
         j = t.ids.index(ident)
         r = t.rates[j]
         if r < 0.0:
             return
         if r > 0.0:
-            ctx.fail(f"{sch}:positive-derivative-unit-selected", case, f"selected unit {ident} has derivative {r!r} > 0")
+            fail_capped(f"{sch}:positive-derivative-unit-selected", case, f"selected unit {ident} has derivative {r!r} > 0")
             return
         first, last = t.nonpos[0], t.nonpos[-1]
         if j == first and j != last:
@@ -381,7 +383,7 @@ def _run(ctx, rng, classes, d1, d2, LiftingSchemeError):
                 got = flow.get("id:%d" % t.ids[j], Fr(0))
                 want = -t.fr[j]
                 if abs(got - want) > tol:
-                    ctx.fail(f"{sch}:flow-imbalance", dict(t.case(), scheme=sch, unit_index=j),
+                    fail_capped(f"{sch}:flow-imbalance", dict(t.case(), scheme=sch, unit_index=j),
                              f"lifted flow into unit {t.ids[j]} is {float(got)!r}, |derivative| is {float(want)!r} "
                              f"(difference {float(got - want)!r}, tolerance {float(tol)!r})")
             # history independence: fresh object vs re-used object after another table
@@ -390,14 +392,14 @@ def _run(ctx, rng, classes, d1, d2, LiftingSchemeError):
             r1 = impl_choose(sch, t, a, u, u2)
             r2 = impl_choose(sch, t, a, u, u2, fresh=True)
             if r1 != r2:
-                ctx.fail(f"{sch}:history-dependence", dict(t.case(), scheme=sch, active=a, u=u.hex(), u2=u2.hex()),
+                fail_capped(f"{sch}:history-dependence", dict(t.case(), scheme=sch, active=a, u=u.hex(), u2=u2.hex()),
                          f"re-used object gave {r1}, fresh object gave {r2}")
             if sch == "ratio" and len(t.pos) > 1:
                 # the ratio choice is a function of the table and its own draw only
                 b = rng.choice([i for i in t.pos if i != a])
                 r3 = impl_choose(sch, t, b, rng.random(), u2)
                 if r3 != r1:
-                    ctx.fail("ratio:depends-on-active-unit-or-first-draw",
+                    fail_capped("ratio:depends-on-active-unit-or-first-draw",
                              dict(t.case(), active=[a, b], u2=u2.hex()), f"{r1} vs {r3}")
 
     # ---- 0. self-check: the model's sum() against the interpreter's
@@ -437,7 +439,7 @@ def _run(ctx, rng, classes, d1, d2, LiftingSchemeError):
     ctx.count("implementation-evaluations-for-bisection", budget["eval"])
 
     # ---- 4. tables built by the real glue code
-    glue(ctx, rng, classes, d1, d2, check_table, lines, expect, cases)
+    glue(ctx, rng, classes, d1, d2, check_table, lines, expect, cases, fail_capped)
 
     # ---- 5. correspondence of the stateless moves
     rep = ctx.model("lift", lines)
@@ -546,7 +548,7 @@ def sessions(ctx, rng, classes, d1, d2, LiftingSchemeError):
         ctx.notes.append("private attributes of Lifting not readable: session correspondence compared outcomes only")
 
 
-def glue(ctx, rng, classes, d1, d2, check_table, lines, expect, cases):
+def glue(ctx, rng, classes, d1, d2, check_table, lines, expect, cases, fail_capped):
     """tables built by the real event-handler code:
     (a) `FixedSeparationsEventHandlerWithPiecewiseConstantBoundingPotential.send_out_state` (real loop, real
         BendingPotential, real `_get_separations`) run on a duck-typed `self`;
@@ -629,7 +631,7 @@ def glue(ctx, rng, classes, d1, d2, check_table, lines, expect, cases):
                 tab = rec.table
                 if [r for r, _, _ in tab] != list(derivs) or [i for _, i, _ in tab] != idents or \
                         [f for _, _, f in tab] != [k == act for k in range(3)]:
-                    ctx.fail("glue:fixed-separations:table-not-the-derivative-table",
+                    fail_capped("glue:fixed-separations:table-not-the-derivative-table",
                              {"derivs": [x.hex() for x in derivs], "active": act},
                              f"inserted {tab!r}")
                 t = Table(list(derivs), [0, 1, 2], "glue:bending")
@@ -663,10 +665,10 @@ def glue(ctx, rng, classes, d1, d2, check_table, lines, expect, cases):
                 order = (local + target) if roots[0] < roots[1] else (target + local)
                 if [i for _, i, _ in tab] != [x.identifier for x in order] or \
                         [f for _, _, f in tab] != [x is local[act] for x in order]:
-                    ctx.fail("glue:_fill_lifting:identifiers-or-active-flag", {"n": [nl, nt], "active": act}, f"inserted {tab!r}")
+                    fail_capped("glue:_fill_lifting:identifiers-or-active-flag", {"n": [nl, nt], "active": act}, f"inserted {tab!r}")
                 mag = sum(abs(Fr(r)) for r, _, _ in tab)
                 if abs(sum(Fr(r) for r, _, _ in tab)) > 16 * (nl * nt + 2) * E53 * mag * (nl + nt):
-                    ctx.fail("glue:_fill_lifting:table-does-not-sum-to-zero",
+                    fail_capped("glue:_fill_lifting:table-does-not-sum-to-zero",
                              {"rates": [r.hex() for r, _, _ in tab]}, "derivative table built by the glue does not cancel")
                 idents = [i for _, i, _ in tab]
                 try:
